@@ -95,6 +95,15 @@ pub fn run(env: &Env, run: &Run) -> (Stats, Coverage) {
     st.sample(json!({"input": ["U+00A8", "a"], "expected": "round 1: NFKC gives ' ' U+0308 a; round 2 trims the space: 'U+0308 a'; round 3 confirms"}));
     st.sample(json!({"input": ["U+00E9", " ", " ", "b"], "expected": "Ok(\"U+00E9 b\") - interior run collapses to one space next to a 2-byte character"}));
     st.sample(json!({"input": ["U+3131"], "expected": "Err(BadCodepoint{0x1100,0,Disallowed}) from the second round's validation"}));
+    // returned-buffer histories: enforce(a) hands out an owned String; the caller refills that very
+    // buffer with another nickname of the same byte length and enforces it
+    {
+        let hs: Vec<char> = [0x61u32, 0x20, 0xE9, 0xFB01, 0x2122, 0xAA, 0x3000, 0x65E5].iter().map(|c| char::from_u32(*c).unwrap()).collect();
+        let strs = all_strings(&hs, 3);
+        st.merge(returned_buffer_histories(&strs, |a| crate::subject::enforce_owned(Prof::Nick, a), |s, st| {
+            check_op(env, Prof::Nick, Op::Enforce, s, st);
+        }));
+    }
     let cov = Coverage {
         rule: format!("every string of length <= {} over a 21-symbol alphabet (spaces of 1-3 bytes, letters of 1-4 bytes, characters whose NFKC form introduces spaces or needs re-validation) and of length <= {} over 8 space/length symbols, + pumped runs and ASCII block strings + every scalar value in 7 templates and next to each of its 16 other-plane aliases; oracle = RFC 8264 s.7 iteration of (non-empty -> FreeformClass -> Zs to space/trim/collapse -> NFKC -> non-empty); every accepted result is re-enforced and re-run through one reference application (fixed point); non-trivial = inputs needing at least two applications", n, n2),
         alphabet: json!({"general": sigma.iter().map(|c| format!("U+{:04X}", *c as u32)).collect::<Vec<_>>(), "space": sp.iter().map(|c| format!("U+{:04X}", *c as u32)).collect::<Vec<_>>()}),
